@@ -98,30 +98,35 @@ def run(res):
     # parse in a sub-directory) while workers are busy: every file must hold exactly its own formatted text, and status and set of files
     # written must be the same for every --num-threads and every repetition
     big = 0
+    # (each file holds 120 further statements, so that formatting a file takes the workers noticeably longer than walking to the next)
+    pad_u = "".join("local   p%d   =   { %d,   %d }\n" % (j, j, j + 1) for j in range(120))
+    pad_f = "".join("local p%d = { %d, %d }\n" % (j, j, j + 1) for j in range(120))
     def big_tree(root, broken):
         for d in ("a", "b", "c", "zz"):
             os.makedirs(os.path.join(root, d))
-            for i in range(50): open(os.path.join(root, d, "m%d.lua" % i), "w").write("local   %s%d   =   %d\n" % (d, i, i))
+            for i in range(50): open(os.path.join(root, d, "m%d.lua" % i), "w").write("local   %s%d   =   %d\n" % (d, i, i) + pad_u)
         if broken: open(os.path.join(root, "zz", "stylua.toml"), "w").write('column_width = "oops"\n')
     def big_state(root):
         st = []
         for d in ("a", "b", "c", "zz"):
             for i in range(50):
                 t = open(os.path.join(root, d, "m%d.lua" % i)).read()
-                st.append("f" if t == "local %s%d = %d\n" % (d, i, i) else ("u" if t == "local   %s%d   =   %d\n" % (d, i, i) else "X"))
+                st.append("f" if t == "local %s%d = %d\n" % (d, i, i) + pad_f else ("u" if t == "local   %s%d   =   %d\n" % (d, i, i) + pad_u else "X"))
         return "".join(st)
     for broken in (False, True):
         base = None
-        for nt in (1, 16, 3, 16, 8, 1):
+        for nt in (1, 16, 1, 3, 16, 2, 8, 1):
             root = scratch("c19big")
             try:
                 big_tree(root, broken)
-                code, _, _ = stylua(["--no-editorconfig", "--num-threads", str(nt), "."], root)
+                # the directories are named in order, so that the walk reaches the one with the broken configuration last
+                code, _, _ = stylua(["--no-editorconfig", "--num-threads", str(nt), "a", "b", "c", "zz"], root)
                 key = (code, big_state(root)); big += 1
             finally:
                 cleanup(root)
             want_code = 2 if broken else 0
-            if "X" in key[1] or key[0] != want_code or (not broken and "u" in key[1]) or (base is not None and key != base):
+            # with the broken configuration: everything the walk handed out before it got there (a, b, c) is formatted, nothing of zz is
+            if "X" in key[1] or key[0] != want_code or (not broken and "u" in key[1]) or (broken and key[1] != "f" * 150 + "u" * 50) or (base is not None and key != base):
                 violations.append(dict(kind="input", check="many-files-%s-num-threads-%d" % ("walk-error" if broken else "all-good", nt),
                                        cli=dict(scenario=dict(id="big-%s" % ("broken" if broken else "good"), note="4 directories x 50 unformatted files%s; --num-threads %d" % (", zz/stylua.toml does not parse" if broken else "", nt)),
                                                 observed="status %d, files formatted/unformatted/garbled: %d/%d/%d" % (key[0], key[1].count("f"), key[1].count("u"), key[1].count("X"))),
@@ -134,7 +139,7 @@ def run(res):
     res.coverage.update(
         evaluations=forced + sweep + big, distinct_nontrivial=len(distinct),
         rule="for 4 file sets containing a missing path, an unparseable file and unformatted files, in check and write mode, every order of the arguments: the accesses to the exit code are traced, then EVERY distinct total order of "
-             "those accesses is forced through the cfg(stylua_verif) scheduling cell (orders that contradict program order time out and are counted as infeasible: %d); plus %d random trees run with --num-threads 1..16, plus a tree of 4 directories x 50 files under 6 thread counts, once all good and once with a configuration file that does not parse in the last directory. "
+             "those accesses is forced through the cfg(stylua_verif) scheduling cell (orders that contradict program order time out and are counted as infeasible: %d); plus %d random trees run with --num-threads 1..16, plus a tree of 4 directories x 50 files under 6 thread counts, once all good and once with a configuration file that does not parse in the last directory (8 runs each). "
              "distinct = distinct (file set, mode, argument order, forced order)" % (infeasible_n, n_trees),
         samples=samples or ["-"], exhaustive=(res.tier != "quick"),
         input_distribution=dict(forced_schedules=forced, infeasible_orders=infeasible_n, thread_sweep_runs=sweep, many_files_runs=big, **tot),
